@@ -896,6 +896,14 @@ class Magnitude(Number):
         )
 
 
+def _strftime(value, fmt):
+    """
+    strftime with a year zero-padded to four digits: '%Y' is not padded for
+    years < 1000 on all platforms, and strptime('%Y') then refuses the result.
+    """
+    return value.strftime(fmt.replace('%Y', '%04d' % value.year))
+
+
 class Date(Number):
     """Date parameter of datetime or date type."""
 
@@ -946,7 +954,7 @@ class Date(Number):
             return None
         if not isinstance(value, (dt.datetime, dt.date)): # i.e np.datetime64
             value = value.astype(dt.datetime)
-        return value.strftime("%Y-%m-%dT%H:%M:%S.%f")
+        return _strftime(value, "%Y-%m-%dT%H:%M:%S.%f")
 
     @classmethod
     def deserialize(cls, value):
@@ -997,7 +1005,7 @@ class CalendarDate(Number):
     def serialize(cls, value):
         if value is None:
             return None
-        return value.strftime("%Y-%m-%d")
+        return _strftime(value, "%Y-%m-%d")
 
     @classmethod
     def deserialize(cls, value):
@@ -1417,9 +1425,9 @@ class DateRange(Range):
                 v = v.astype(dt.datetime)
             # Separate date and datetime to deserialize to the right type.
             if type(v) is dt.date:
-                v = v.strftime("%Y-%m-%d")
+                v = _strftime(v, "%Y-%m-%d")
             else:
-                v = v.strftime("%Y-%m-%dT%H:%M:%S.%f")
+                v = _strftime(v, "%Y-%m-%dT%H:%M:%S.%f")
             serialized.append(v)
         return serialized
 
@@ -1477,7 +1485,7 @@ class CalendarDateRange(Range):
         if value is None:
             return None
         # As JSON has no tuple representation
-        return [v.strftime("%Y-%m-%d") for v in value]
+        return [_strftime(v, "%Y-%m-%d") for v in value]
 
     @classmethod
     def deserialize(cls, value):
